@@ -13,7 +13,7 @@ from tartiflette import Resolver, Directive
 from crosshair.tracers import NoTracing
 
 META = {
-    "bounds": "19 argument positions (Int, Int!, [Int], [[Int]], [Int!]!, [String], [Color], [ID!], String, Boolean, ID, Float, enum, recursive input object, [Inp!], each with/without schema default) "
+    "bounds": "19 argument positions (Int, Int!, [Int], [[Int]], [Int!]!, [Int]!, [[Int]!], [[Int!]] (variable-usage obligation), [String], [Color], [ID!], String, Boolean, ID, Float, enum, recursive input object, [Inp!], each with/without schema default) "
               "x 10 value expressions (leaf, lists <= 2, null, objects, nesting) x field and directive position; int literals abstracted as int(text)=n with n unbounded",
     "outside": "the decimal rendering/parsing of int literals (CPython int()); Float literals' text (C10); lists longer than 2",
     "explanation": "Each value is supplied as a literal and through a correctly typed variable (and nested in list/object literals); both argument dictionaries must equal the reference CoerceArgumentValues result.",
@@ -29,6 +29,7 @@ type Query {
   p_c(x: Color): String  p_dc(x: Color = GREEN): String  p_o(x: Inp): String  p_do(x: Inp = {x: 1}): String  p_lo(x: [Inp!]): String
   p_f(x: Float): String  p_dli(x: [Int] = [1, 2]): String p_dnull(x: Int = null): String
   p_ls(x: [String]): String  p_lc(x: [Color]): String  p_lid(x: [ID!]): String
+  w_nl(x: [Int]!): String  w_lnl(x: [[Int]!]): String  w_lln(x: [[Int!]]): String
   sib: Int
 }
 """
@@ -57,6 +58,9 @@ Directive("d", schema_name=NAME)(D())
 MODEL = model_from_sdl(SDL)
 FIELDS = [f for f in MODEL["types"]["Query"]["fields"] if f.startswith("p_")]
 for _f in FIELDS:
+    Resolver("Query." + _f, schema_name=NAME)(_probe)
+# list positions whose levels differ in nullability (only used by c05_vartype: not part of FIELDS, so the literal/variable/default case table is unchanged)
+for _f in ("w_nl", "w_lnl", "w_lln"):
     Resolver("Query." + _f, schema_name=NAME)(_probe)
 ENG = build(SDL, NAME, query_cache_decorator=None)
 env.run(ENG.execute("{ sib }"))
@@ -315,7 +319,8 @@ def c05_defaults(k: int, mode: int) -> bool:
 
 
 # ---- no value of another type is ever delivered (variable type x position type, top level and nested) ------------
-ARGS = [("p_i", "Int"), ("p_ni", "Int!"), ("p_li", "[Int]"), ("p_nli", "[Int!]!"), ("p_lli", "[[Int]]"), ("p_s", "String"), ("p_id", "ID"), ("p_b", "Boolean")]
+ARGS = [("p_i", "Int"), ("p_ni", "Int!"), ("p_li", "[Int]"), ("p_nli", "[Int!]!"), ("p_lli", "[[Int]]"), ("p_s", "String"), ("p_id", "ID"), ("p_b", "Boolean"),
+        ("w_nl", "[Int]!"), ("w_lnl", "[[Int]!]"), ("w_lln", "[[Int!]]")]
 VARTYPES = ["Int", "Int!", "[Int]", "[Int!]", "[Int]!", "String", "String!", "[String]", "Boolean", "ID"]
 OBJ_INNER = [("x", "Int!"), ("y", "[Int]")]
 
